@@ -89,6 +89,17 @@ def dtype_complex(ops, cin):
     return dc
 
 
+def chain_ok(ops, cin, rg):
+    """well-typed, and every Imaginizer sees a complex dtype; -> (cplx, harm) | None"""
+    t = chain_type(ops, cin, rg)
+    if t is None:
+        return None
+    for j, op in enumerate(ops):
+        if op["o"] == "imag" and not dtype_complex(ops[:j], cin):
+            return None
+    return t
+
+
 def is_linear(ops):
     return all(op["o"] in LINEAR or (op["o"] == "f" and op["spec"]["f"] in ("id", "scal", "diag")) for op in ops)
 
